@@ -90,7 +90,7 @@ def body_faults(job: JobInstance):
     return out
 
 
-def execute(cfg: dict, fault: dict | None) -> dict:
+def execute(cfg: dict, fault: dict | None, deviations: dict | None = None, second_kill: dict | None = None) -> dict:
     """one execution; returns a small picklable record"""
     job = make_job(cfg["job"])
     PLAN.clear()
@@ -99,26 +99,33 @@ def execute(cfg: dict, fault: dict | None) -> dict:
 
     def on_cluster(cl):
         CLUSTER[0] = cl
-        if fault and fault["type"] == "kill-proc":
+        kills = [f for f in (fault, second_kill) if f and f.get("type", "kill-proc") == "kill-proc"]
+        if kills:
             def hook(step, p, cl=cl):
-                if step == fault["step"] and fired_step[0] is None:
-                    victims = [q for q in cl.sched.procs if q.name == fault["proc"] and q.started and not q.dead and not q.killed]
-                    if victims:
-                        cl.sched.kill(victims[0])
-                        fired_step[0] = step
+                for f in kills:
+                    if step == f["step"]:
+                        victims = [q for q in cl.sched.procs if q.name == f["proc"] and q.started and not q.dead and not q.killed]
+                        if victims:
+                            cl.sched.kill(victims[0])
+                            if fired_step[0] is None:
+                                fired_step[0] = step
             cl.sched.step_hook = hook
 
     if fault and fault["type"] == "body":
         PLAN.update(fault)
-    r = vcluster.run_cluster(job, cfg["hosts"], cfg["workers"], horizon_s=HORIZON_S, max_steps=60_000, on_cluster=on_cluster)
+    r = vcluster.run_cluster(job, cfg["hosts"], cfg["workers"], horizon_s=HORIZON_S, max_steps=60_000, on_cluster=on_cluster,
+                             deviations={int(k): v for k, v in (deviations or {}).items()})
     cl = r.pop("cluster")
+    fired = bool(FIRED)
+    PLAN.clear()  # the reference evaluation below must run fault-free
     exp = sequential_eval(make_job(cfg["job"]))
     rec = {
         "phase1": r["phase1"], "phase2": r.get("phase2"), "steps": r["steps"], "virtual_s": round(r["virtual_s"], 1),
         "exception": None if r["exception"] is None else f"{type(r['exception']).__name__}: {str(r['exception'])[:160]}",
         "alive_after": r["alive_after"], "segments_left": r["segments_left"],
-        "fired": bool(FIRED) or fired_step[0] is not None,
+        "fired": fired or fired_step[0] is not None,
         "procs": [(p.name, p.kind) for p in cl.sched.procs], "run_started_step": r.get("run_started_step"),
+        "choice_widths": list(r.get("choice_widths", [])),
         "wrong": None,
     }
     if r["outputs"] is not None:
@@ -197,6 +204,12 @@ def run(ctx):
             for sig, msg, rp in viols:
                 ctx.add_violation(common.Violation(sig, msg, rp))
         ctx.sample({"cfg": cfg, "fault_free": {k: base[k] for k in ("steps", "virtual_s", "procs")}, "example_fault": cases[len(cases) // 2][1]}, cap=3)
+    if not ctx.quick:
+        from vf import c05_ext
+
+        ext = c05_ext.run(ctx)
+        ctx.coverage["extensions"] = ext
+        evaluations += sum(ext.values())
     real = real_validation(ctx, ctx.pick(2, 8))
     ctx.coverage["real_process_validations"] = real
     ctx.coverage.update(
@@ -276,5 +289,10 @@ def real_validation(ctx, n: int) -> list:
 def replay(ctx, data):
     if data.get("real"):
         return []
-    rec = execute(data["cfg"], data["fault"])
+    if data.get("second_kill"):
+        from vf import c05_ext
+
+        _, v = c05_ext._run_pair((data["cfg"], data["fault"], data["second_kill"]))
+        return [common.Violation(sig, msg, rp) for sig, msg, rp in v]
+    rec = execute(data["cfg"], data["fault"], deviations=data.get("deviations"))
     return [common.Violation(sig, msg, rp) for sig, msg, rp in judge(data["cfg"], data["fault"], rec)]
